@@ -95,9 +95,10 @@ static ares_status_t ares_search_next(ares_channel_t      *channel,
   status = ares_send_nolock(channel, NULL, 0, squery->dnsrec, search_callback,
                             squery, NULL);
 
-  if (status != ARES_EFORMERR) {
-    *skip_cleanup = ARES_TRUE;
-  }
+  /* ares_send_nolock() takes over the request whatever it returns: on every
+   * failure (including ARES_EFORMERR, e.g. a name too long to write) it has
+   * already invoked search_callback(), which completed and freed squery. */
+  *skip_cleanup = ARES_TRUE;
 
   return status;
 }
